@@ -96,7 +96,7 @@ type corrCase struct {
 	seq    []corrItem
 }
 
-func (c *corrCase) stream() bool { return puppet.Info[c.method].Kind == "stream" }
+func (c *corrCase) stream() bool  { return puppet.Info[c.method].Kind == "stream" }
 func (c *corrCase) expected() int { return len(c.cfg) - len(c.skip) }
 
 func (c *corrCase) line() string {
